@@ -98,8 +98,15 @@ def run(tier, seed, build):
             dist["objects_compared"] += len(mem["objects"])
             nontrivial.add(ti)
             if mem != rel:
-                what = "tables" if mem["tables"] != rel["tables"] else "components" if mem["components"] != rel["components"] else "objects"
+                what = "tables" if mem["tables"] != rel["tables"] else "components" if mem["components"] != rel["components"] else "objects" if mem["objects"] != rel["objects"] else "attributes"
                 detail = ""
+                if what == "attributes":
+                    for a_, b_ in zip(mem["full"], rel["full"]):
+                        if a_ != b_:
+                            da, db = dict(a_["attrs"]), dict(b_["attrs"])
+                            detail = "%s object %d: %r" % (a_.get("class"), a_.get("id"), {k: (str(da.get(k, "<absent>"))[:80], str(db.get(k, "<absent>"))[:80]) for k in set(da) | set(db) if da.get(k, "<absent>") != db.get(k, "<absent>")}); break
+                    else:
+                        detail = "object counts %d vs %d" % (len(mem["full"]), len(rel["full"]))
                 if what == "objects":
                     for a_, b_ in zip(mem["objects"], rel["objects"]):
                         if a_ != b_:
@@ -131,7 +138,7 @@ def run(tier, seed, build):
     finally:
         shutil.rmtree(wd, ignore_errors=True)
     return {"evaluations": dist["round_trips"], "distinct_nontrivial": len(nontrivial),
-            "rule": "satisfiable components (60% with a [dummy] strand) and system libraries, half with a fixed-sequence file, compiled after 0/1/3/5 earlier compiles in the same interpreter; the in-memory system is captured at compiler.save, the .save is loaded in a second fresh interpreter (other hash seed); canonical graph dumps compared (tables, attributes, item lists by identity class, complement links, sharing with component tables, signal tables), cross-checked with the .pil of the same compile, and apply_design run on both. Non-trivial = round trip that compiled",
+            "rule": "satisfiable components (60% with a [dummy] strand) and system libraries, half with a fixed-sequence file, compiled after 0/1/3/5 earlier compiles in the same interpreter; the in-memory system is captured at compiler.save, the .save is loaded in a second fresh interpreter (other hash seed); canonical graph dumps compared (tables, attributes, item lists by identity class, complement links, sharing with component tables, signal tables, and a generic dump of every instance attribute of every reachable object, whoever attached it), cross-checked with the .pil of the same compile, and apply_design run on both. Non-trivial = round trip that compiled",
             "samples": samples, "distribution": dist, "failures": failures}
 
 def replay(path):
